@@ -345,7 +345,7 @@ func (sim *Sim) stuckEvidence() string {
 				return "", false
 			}
 			switch g.status {
-			case "chan receive", "chan send", "select", "semacquire", "sync.WaitGroup.Wait":
+			case "chan receive", "chan send", "select", "semacquire", "sync.WaitGroup.Wait", "sync.Mutex.Lock", "sync.RWMutex.Lock", "sync.RWMutex.RLock":
 			default:
 				return "", false
 			}
@@ -353,7 +353,7 @@ func (sim *Sim) stuckEvidence() string {
 				return "", false
 			}
 			fn := "?"
-			for _, name := range []string{"readPump", "writePump", "finally", "notifyErr", "Close", "ForceClose", "SendPacket"} {
+			for _, name := range []string{"notifyErr", "finally", "Close", "ForceClose", "readPump", "writePump", "SendPacket"} {
 				if strings.Contains(g.text, ")."+name+"(") {
 					fn = name
 					break
